@@ -23,6 +23,9 @@ def tasks(tier, seed):
     return [
         *[func(q) for q in GETTER_TASKS],
         func("bt.core.StrategyBase.flatten"),
+        # "whenever a tree is observed": an observation refreshes a tree only if the mutation before it left root.stale set (or updated) - for every amount, zero included
+        func("bt.core.StrategyBase.adjust"),
+        func("bt.core.SecurityBase.transact"),
         *UPDATE_ALL,
         func("bt.core.SecurityBase.update"),
         func("bt.core.FixedIncomeSecurity.update"),
